@@ -61,7 +61,7 @@ PROPS = {
         'extra': ['twin'],
     },
     'C02': {
-        'theorems': 'Properties/C02', 'scenarios': ['flow-timeout-giveup', 'flow-rollover-coincide', 'flow-renew2-migrate'], 'obligation_files': ['Obligations/ObShape'],
+        'theorems': 'Properties/C02', 'scenarios': ['flow-timeout-giveup', 'flow-rollover-coincide', 'flow-renew2-migrate', 'flow-fault-not-held'], 'obligation_files': ['Obligations/ObShape'],
         'profiles': [SAO, SAOLONG, NODE, SELECT, STAKING],
         'projection': ['outcome-class'], 'monitors': ['live.'], 'families': ALL_FAM,
         'halt_is_violation': True, 'crash_is_witness': True,
@@ -73,25 +73,25 @@ PROPS = {
         'projection': ['proc.sharesBeforeModified', 'node.Node#5', 'node.Node#6'], 'monitors': ['proc.', 'twin.'], 'families': ['staking', 'node', 'block'],
     },
     'C04': {
-        'theorems': 'Properties/C04', 'scenarios': ['flow-debt-claim', 'flow-renew2-migrate', 'flow-timeout-giveup', 'flow-debt-release', 'flow-rollover-coincide', 'flow-sponsor-rollback'], 'obligation_files': ['Obligations/ObShape'],
+        'theorems': 'Properties/C04', 'scenarios': ['flow-debt-claim', 'flow-renew2-migrate', 'flow-timeout-giveup', 'flow-debt-release', 'flow-rollover-coincide', 'flow-sponsor-rollback', 'flow-short-renewal'], 'obligation_files': ['Obligations/ObShape'],
         'profiles': [SAO, SAOLONG],
         'projection': ['bank.Balance', 'market.Worker', 'order.Order#8', 'order.Order#6', 'order.Order#5'],
         'monitors': ['solv.market', 'solv.order', 'cons.', 'frame.supply'], 'families': ['sao', 'block', 'node'],
     },
     'C05': {
-        'theorems': 'Properties/C05', 'scenarios': ['flow-sponsor-rollback'], 'obligation_files': ['Proofs/Refinement'],
+        'theorems': 'Properties/C05', 'scenarios': ['flow-sponsor-rollback', 'flow-renewed-versions', 'flow-late-ready'], 'obligation_files': ['Proofs/Refinement'],
         'profiles': [SAO, SAOLONG],
         'projection': ['bank.Balance', 'order.Order+keys', 'order.Shard+keys', 'model.Metadata', 'model.Model', 'model.ExpiredData'],
         'monitors': ['sched.expdata_live', 'sched.meta_scheduled', 'sched.meta_expiry_is_shard_end', 'ref.model_alias', 'rollback.'], 'families': ['sao', 'block'],
     },
     'C06': {
-        'theorems': 'Properties/C06', 'scenarios': ['flow-debt-claim', 'flow-timeout-giveup', 'flow-debt-release', 'flow-rollover-coincide'], 'obligation_files': ['Obligations/ObShape', 'Proofs/Refinement'],
+        'theorems': 'Properties/C06', 'scenarios': ['flow-debt-claim', 'flow-timeout-giveup', 'flow-debt-release', 'flow-rollover-coincide', 'flow-short-renewal'], 'obligation_files': ['Obligations/ObShape', 'Proofs/Refinement'],
         'profiles': [SAO, SAOLONG, NODE],
         'projection': ['bank.Balance', 'bank.Supply', 'node.PledgeDebt', 'did.DidBalances'],
         'monitors': ['solv.'], 'families': ['sao', 'block', 'node', 'bank'],
     },
     'C07': {
-        'theorems': 'Properties/C07', 'scenarios': ['flow-debt-claim', 'flow-renew2-migrate', 'flow-debt-release'], 'obligation_files': [],
+        'theorems': 'Properties/C07', 'scenarios': ['flow-debt-claim', 'flow-renew2-migrate', 'flow-debt-release', 'flow-short-renewal'], 'obligation_files': [],
         'profiles': [SAO, SAOLONG, NODE],
         'projection': ['bank.Balance', 'node.Pledge#0', 'node.Pledge#1', 'node.Pledge#4', 'node.Pledge#5', 'node.PledgeDebt', 'order.Shard#4', 'order.Shard#9'],
         'monitors': ['agg.used_bounds', 'agg.shpledged_is_sum', 'agg.used_is_sum', 'frame.node_msgs', 'solv.node', 'coll.release_exact'], 'families': ['sao', 'block', 'node'],
@@ -103,7 +103,7 @@ PROPS = {
         'monitors': ['agg.pool_is_sum', 'frame.supply', 'solv.node', 'mint.'], 'families': ['block', 'node', 'sao'],
     },
     'C09': {
-        'theorems': 'Properties/C09', 'scenarios': ['flow-forged-owner'], 'obligation_files': [],
+        'theorems': 'Properties/C09', 'scenarios': ['flow-forged-owner', 'flow-stale-order', 'flow-renewed-versions'], 'obligation_files': [],
         'profiles': [SAO, SAOLONG],
         'projection': ['model.'], 'monitors': ['authz.store', 'authz.renew', 'authz.terminate', 'authz.permission', 'frame.models'],
         'families': ['sao', 'block'],
@@ -115,14 +115,14 @@ PROPS = {
         'monitors': ['authz.complete', 'authz.cancel', 'authz.payer', 'frame.node_msgs'], 'families': ['sao', 'node'],
     },
     'C11': {
-        'theorems': 'Properties/C11', 'scenarios': ['flow-renew2-migrate', 'flow-rollover-coincide'], 'obligation_files': ['Obligations/ObShape', 'Proofs/Refinement'],
+        'theorems': 'Properties/C11', 'scenarios': ['flow-renew2-migrate', 'flow-rollover-coincide', 'flow-short-renewal', 'flow-renewed-versions'], 'obligation_files': ['Obligations/ObShape', 'Proofs/Refinement'],
         'profiles': [SAOLONG, SAO],
         'projection': ['order.Shard+keys', 'order.Shard#7', 'order.Shard#8', 'order.Shard#9', 'order.Order+keys', 'model.Metadata+keys', 'model.Metadata#11',
                        'sao.ExpiredShard', 'model.ExpiredData', 'node.Pledge#5', 'node.Pledge#1', 'market.Worker'],
         'monitors': ['ref.completed_scheduled', 'sched.meta_scheduled', 'sched.expdata_live', 'sched.meta_covers_shards', 'sched.meta_covers_renewals', 'sched.meta_expiry_is_shard_end', 'sched.future'], 'families': ['block', 'sao'],
     },
     'C12': {
-        'theorems': 'Properties/C12', 'scenarios': ['flow-timeout-giveup'], 'obligation_files': ['Obligations/ObShape'],
+        'theorems': 'Properties/C12', 'scenarios': ['flow-timeout-giveup', 'flow-late-ready'], 'obligation_files': ['Obligations/ObShape'],
         'profiles': [SAO, SAOLONG],
         'projection': ['order.Order#5', 'order.Order#6', 'order.Order#7', 'order.Order#8', 'order.Order+keys', 'sao.TimeoutOrder', 'order.Shard#1'],
         'monitors': ['sched.timeout_scheduled', 'sched.long_timeout_scheduled', 'sched.timeouts_future', 'sel.order_sps_distinct'], 'families': ['block', 'sao'],
@@ -135,7 +135,7 @@ PROPS = {
         'monitors': ['ref.'], 'families': ['sao', 'block'],
     },
     'C14': {
-        'theorems': 'Properties/C14', 'scenarios': ['flow-debt-claim', 'flow-renew2-migrate', 'flow-debt-release', 'flow-rollover-coincide'], 'obligation_files': ['Proofs/Refinement'],
+        'theorems': 'Properties/C14', 'scenarios': ['flow-debt-claim', 'flow-renew2-migrate', 'flow-debt-release', 'flow-rollover-coincide', 'flow-short-renewal'], 'obligation_files': ['Proofs/Refinement'],
         'profiles': [SAO, SAOLONG, NODE],
         'projection': ['node.Pledge#0', 'node.Pledge#1', 'node.Pledge#4', 'node.Pledge#5', 'market.Worker#0', 'market.Worker#2', 'node.Pool#0', 'node.Pool#6',
                        'order.Shard#2', 'order.Shard#4'],
@@ -148,7 +148,7 @@ PROPS = {
         'monitors': ['sel.'], 'families': ['select', 'sao', 'block'], 'crash_is_witness': True,
     },
     'C16': {
-        'theorems': 'Properties/C16', 'obligation_files': ['Proofs/Refinement'],
+        'theorems': 'Properties/C16', 'scenarios': ['flow-renewed-versions'], 'obligation_files': ['Proofs/Refinement'],
         'profiles': [SAO, SAOLONG],
         'projection': ['order.OrderCount', 'order.ShardCount', 'order.Order+keys', 'order.Shard+keys', 'model.Metadata#3', 'model.Metadata#6',
                        'model.Metadata#9', 'model.Metadata#15', 'model.Metadata#16'],
@@ -160,7 +160,7 @@ PROPS = {
         'projection': ['did.'], 'monitors': ['did.'], 'families': ['did'],
     },
     'C18': {
-        'theorems': 'Properties/C18', 'obligation_files': ['Obligations/ObGenesis'],
+        'theorems': 'Properties/C18', 'scenarios': ['flow-genesis-many'], 'obligation_files': ['Obligations/ObGenesis'],
         'profiles': [P('genesis', 12, 96, 120)],
         'projection': ['*'], 'monitors': ['genesis.'], 'families': ['genesis'],
     },
